@@ -24,6 +24,7 @@ RULE = ("API-surface fuzz: public callables are enumerated by introspection on B
         "after every call the outcome class and the validity of every involved object (immutables unchanged, "
         "len == len(bin), 0 <= pos <= len, options as set) are checked, by the harness and by the class-wide sentinels "
         "S1-S5. key = (callable, argument-class vector, outcome class); non-trivial = at least one adversarial argument")
+AMBIENT = ['bytealigned']
 ANCHORS = ['Bits._validate_slice', 'Bits.__getattr__', 'BitArray.__setattr__', 'pack', 'Dtype.build', 'Dtype.parse',
            'Array.__init__', 'Options.set_lsb0', 'Bits._initialise']
 REQUIRED_SENTINELS = ['S1', 'S2', 'S3', 'S4']
@@ -117,6 +118,9 @@ def build(spec, receiver, tmpdir):
         return bytes.fromhex(spec[1])
     if t == 'array':
         return Array(spec[1], spec[2])
+    if t == 'pyarray':
+        import array as _array
+        return _array.array(spec[1], spec[2])
     if t == 'file':
         path = os.path.join(tmpdir, 'f.bin')
         with open(path, 'wb') as f:
@@ -144,6 +148,18 @@ TOKENS_BAD = ['', ',', 'uint', 'uint:0', 'int:-3', 'float:17', 'hex:3', 'uintle:
               '>z', 'pad', 'bfloat:8', 'e4m3mxfp:7', 'x' * 60, 'u8, ' * 30 + 'u8', '3*(3*(3*(3*(u1))))', 'uint:8, bits, bits', 'bits, ue']
 
 
+def pyarray_spec(rng):
+    """An array.array of any typecode the interpreter has (not all of them are struct codes: 'u', and 'w' from 3.13)."""
+    import array as _array
+    tc = rng.choice(_array.typecodes)
+    n = rng.choice([0, 1, 2, 3])
+    if tc in 'uw':
+        return ['pyarray', tc, 'hi\u00e9'[:n]]
+    if tc in 'fd':
+        return ['pyarray', tc, [0.5, -1.0, 2.0][:n]]
+    return ['pyarray', tc, [1, 0, 100][:n]]
+
+
 def gen_arg(rng, pname, cname, L, method):
     """JSON-able spec for a parameter called pname of cname.method; L = current length of the receiver."""
     ints = [0, 1, -1, 2, 7, 8, 9, L, L - 1, L + 1, -L, -L - 1, L // 2, 64, 10 ** 5, -10 ** 5]
@@ -161,7 +177,8 @@ def gen_arg(rng, pname, cname, L, method):
         if cname == 'Array' and method in ('__lshift__', '__rshift__', '__ilshift__', '__irshift__', '__mod__', '__imod__'):
             return rng.choice([['int', rng.choice([0, 1, -1, 2, 8, 64, 10 ** 4])], ['array', rng.choice(['uint8', 'int8', 'uint1']), rng.choice([[], [1], [1, 0], [1, 1, 0]])]])
         if cname == 'Array' and method in ('__eq__', '__ne__', 'equals'):
-            return rng.choice([['int', 1], ['float', 0.5], ['none'], ['str', 'a'], ['array', 'uint8', [1, 0]], ['bits', ['Bits', '1']], ['list', [['int', 1]]]])
+            return rng.choice([['int', 1], ['float', 0.5], ['none'], ['str', 'a'], ['array', 'uint8', [1, 0]], ['bits', ['Bits', '1']], ['list', [['int', 1]]],
+                               pyarray_spec(rng), pyarray_spec(rng)])
         if cname == 'Array':
             r = rng.random() * 0.8
             if r < 0.5:
@@ -250,7 +267,7 @@ def gen_arg(rng, pname, cname, L, method):
                            ['bits', ['Bits', '1010']], ['none'], ['bool', True]])
     if pname == 'iterable':
         return rng.choice([['list', [['int', rng.choice([0, 1, 255, 256, -1])] for _ in range(rng.randint(0, 4))]], ['raising-iter', [1]], ['str', '123'],
-                           ['array', rng.choice(['uint8', 'int8', 'float32']), [1, 2]], ['bytes', 'ff00'], ['none']])
+                           ['array', rng.choice(['uint8', 'int8', 'float32']), [1, 2]], ['bytes', 'ff00'], ['none'], pyarray_spec(rng), pyarray_spec(rng)])
     if pname == 'dtype':
         names = ['uint8', 'int3', 'float16', 'hex4', '>H', 'bool', 'uint0', 'bytes2', 'ue', 'nonsense', '', 'float17', 'bits3', 'uint', '<zz', 'e2m1mxfp']
         if method == 'astype':
@@ -677,7 +694,7 @@ def gen_entry(ctx):
     vals = [['int', rng.choice([0, 1, -1, 255, 256, 2 ** 64, -2 ** 63 - 1])], ['float', rng.choice([0.5, float('nan'), float('inf'), 1e39, -0.0])],
             ['str', rng.choice(['ff', '0xff', '0b101', 'zz', '', '1 0_1', '0o17', 'True', '-3', '1e3', 'nan'])], ['bool', True], ['none'],
             ['bytes', 'abcd'], ['bytes', ''], ['bits', ['Bits', '1011']], ['bits', ['BitArray', '']], ['list', [['int', 1], ['int', 0]]],
-            ['missing-file'], ['raising-iter', [1, 0]]]
+            ['missing-file'], ['raising-iter', [1, 0]], pyarray_spec(rng)]
     lens = [['none'], ['int', rng.choice([0, 1, 7, 8, 16, 17, 32, 64, -1, -8, 10 ** 5])]]
     c = {'entry': kind, 'lsb0': rng.random() < 0.25, 'args': [], 'kw': {}}
     if kind == 'ctor':
@@ -737,7 +754,8 @@ def gen_entry(ctx):
         c['args'] = [['str', rng.choice(['uint8', 'int3', 'float16', 'hex4', '>H', 'bool', 'uint0', 'bytes2', 'ue', 'nonsense', '', 'float17', 'bits3', 'uint', '<zz',
                                           'e2m1mxfp', 'pad8', 'uintle12', 'int0', 'bin0', 'hex0', 'bits0'])],
                      rng.choice([['list', [['int', rng.choice([0, 1, 255, 256, -1])] for _ in range(rng.randint(0, 4))]], ['none'], ['int', rng.choice([0, 3, -1, 10 ** 4])],
-                                 ['bytes', 'ff00ff'], ['bits', ['Bits', '10101']], ['raising-iter', [1]], ['str', 'abc'], ['file', 'abcdef']])]
+                                 ['bytes', 'ff00ff'], ['bits', ['Bits', '10101']], ['raising-iter', [1]], ['str', 'abc'], ['file', 'abcdef'],
+                                 pyarray_spec(rng), pyarray_spec(rng)])]
         if rng.random() < 0.3:
             c['kw']['trailing_bits'] = rng.choice([['str', '0b1'], ['str', 'zz'], ['bits', ['Bits', '101']], ['int', 3]])
     return c
